@@ -93,6 +93,7 @@ class World:
         self.cand = {}
         self.pre_outdated = None
         self.first_sync_in_step = False
+        self.synced_in_step = False
         # reference data
         self.intended = {}        # name -> set of canon(expected content)
         self.prepop = {}          # name -> set of raw bytes planted
@@ -101,6 +102,12 @@ class World:
         self.parse_cache = parse_cache if parse_cache is not None else {}
         self.exp_cache = {}       # name -> (versions, expected dict)
         self.view = {}            # cache dir: name -> raw bytes
+        # entries removed by someone else (appcfgmgr drops an entry it cannot
+        # configure) since the last synchronisation began: the agent cannot
+        # know before it synchronises again
+        self.ext_removed = set()
+        self.ext_removed_ever = set()
+        self.uncached_at_sync = set()   # placed, no manifest at a sync
         # bookkeeping
         self.source = None
         self.executed = []
@@ -113,7 +120,9 @@ class World:
         self.died = {}
         self.last_death = None
         self.probes = {
-            'syncs': 0, 'files_written': 0, 'stale_removed': 0,
+            'syncs': 0, 'dir_listings': 0, 'late_manifest_then_event': 0,
+            'ext_removed_then_event': 0, 'never_cached_unplaced': 0,
+            'files_written': 0, 'stale_removed': 0,
             'outdated_rewritten': 0, 'manifest_missing': 0,
             'placement_missing': 0, 'placement_data_empty': 0,
             'restarts': 0, 'starts': 0, 'agent_deaths': 0,
@@ -205,6 +214,14 @@ class World:
             self.on_agent_get(path)
             return real_get(path, watch=watch)
         client.get = counted_get
+        real_get_children = client.get_children
+
+        def counted_get_children(path, watch=None, include_data=False):
+            if path == ROOT:
+                self.on_agent_children()
+            return real_get_children(path, watch=watch,
+                                     include_data=include_data)
+        client.get_children = counted_get_children
         context.GLOBAL.zk.conn = client
         self.agent_client = client
         self.agent_alive = True
@@ -318,6 +335,7 @@ class World:
         self.gets = 0
         self.pre_outdated = None
         self.first_sync_in_step = False
+        self.synced_in_step = False
         self.cand = {}
         for name in self.zk.children(ROOT) or []:
             exp = self.expected(name)
@@ -369,13 +387,39 @@ class World:
                 self.sync_zxid = self.zk.zxid
         if not died and self.violation is None:
             self.check_quiescent()
+        if not died and self.synced_in_step:
+            self.uncached_at_sync = set(self.zk.children(ROOT) or []) - \
+                set(os.listdir(self.cache_dir))
         self.fps.append(logmod.fingerprint(self.abstract_state()))
         self.step_index = None
 
     def on_list(self):
-        """The agent lists the cache directory: a synchronisation begins."""
+        """The agent lists the cache directory."""
+        self.probes['dir_listings'] += 1
+
+    def on_agent_children(self):
+        """The agent reads the children of /placement/<host> (watch
+        registration or a child event): a synchronisation begins.  Observed
+        at the ZooKeeper seam, so it does not depend on how the code under
+        test looks at its directory."""
         self.probes['syncs'] += 1
+        placed = set(self.zk.children(ROOT) or [])
+        if self.synced_this_gen and self.sync_zxid is not None:
+            # reach probes for the multi-step histories
+            have = set(os.listdir(self.cache_dir))
+            for name in sorted(placed - have):
+                mnode = self.zk.nodes.get(z.path.scheduled(name))
+                pnode = self.zk.nodes.get(z.path.placement(HOST, name))
+                if mnode is not None and pnode is not None and \
+                        mnode.czxid > self.sync_zxid >= pnode.czxid:
+                    self.probes['late_manifest_then_event'] += 1
+            if self.ext_removed & placed:
+                self.probes['ext_removed_then_event'] += 1
+            if self.uncached_at_sync - placed:
+                self.probes['never_cached_unplaced'] += 1
+        self.synced_in_step = True
         self.sync_zxid = self.zk.zxid
+        self.ext_removed.clear()
         if not self.synced_this_gen:
             # the initial synchronisation (check_existing): which files are
             # older than the placement they stand for?
@@ -524,6 +568,21 @@ class World:
             os.unlink(path)
             self.seam.ctimes.pop(path, None)
             self.view.pop(name, None)
+
+    def op_ext_rm(self, op):
+        """Another process removes a cache entry while the agent runs (what
+        appcfgmgr does with an entry it cannot configure)."""
+        name = op['name']
+        if '/' in name or name.startswith('.') or name in ('', READY):
+            return
+        path = os.path.join(self.cache_dir, name)
+        if not os.path.isfile(path):
+            return
+        os.unlink(path)
+        self.seam.ctimes.pop(path, None)
+        self.view.pop(name, None)
+        self.ext_removed.add(name)
+        self.ext_removed_ever.add(name)
 
     def op_settle(self, _op):
         """Reach probe: is the system quiescent and consistent now?"""
@@ -729,6 +788,8 @@ class World:
                 continue
             if mnode.czxid > sync or pnode.czxid > sync:
                 continue      # appeared after the last synchronisation began
+            if name in self.ext_removed:
+                continue      # removed by someone else since then
             self.fail('C12:placed-instance-not-cached',
                       'quiescent, %r is placed on %s, its manifest and '
                       'placement record exist since before the last '
@@ -1071,6 +1132,80 @@ class Generator:
                 {'op': 'place_put', 'name': name,
                  'data': gen_placement_data(self.rng, world.clock.peek())}]
 
+    # -- targeted multi-op histories on one running agent
+    def _drain(self):
+        return {'op': 'deliver', 'n': 50, 'order': self.order()}
+
+    def _unrelated_event(self, world):
+        """A child event of /placement/<host> that keeps the others placed:
+        another instance arrives, or one leaves."""
+        placed = self.placed(world)
+        if len(placed) > 1 and self.rng.random() < 0.3:
+            return [{'op': 'place_del', 'name': self.rng.choice(placed)}]
+        return self.g_place_new(world)
+
+    def g_late_manifest(self, world):
+        """Placed while the manifest is missing; the manifest appears after
+        that synchronisation; a later placement event still lists it."""
+        if not world.agent_alive or ROOT not in world.zk.nodes:
+            return None
+        rng = self.rng
+        lacking = [n for n in self.placed(world)
+                   if z.path.scheduled(n) not in world.zk.nodes]
+        out = []
+        if lacking and rng.random() < 0.5:
+            name = rng.choice(lacking)
+        else:
+            name = self.new_name()
+            out.append({'op': 'place_put', 'name': name,
+                        'data': gen_placement_data(rng, world.clock.peek())})
+        out.append(self._drain())
+        out.append({'op': 'sched_put', 'name': name,
+                    'manifest': gen_manifest(rng, self.config, name)})
+        if rng.random() < 0.3:
+            out.append({'op': 'advance', 'dt': rng.choice([0.5, 45.0])})
+        event = [op for op in self._unrelated_event(world)
+                 if op.get('name') != name]
+        out.extend(event or self.g_place_new(world))
+        out.append(self._drain())
+        return out
+
+    def g_ext_rm(self, world):
+        """A cache entry is removed by another process between two events;
+        a later placement event still lists the instance."""
+        if not world.agent_alive:
+            return None
+        have = set(os.listdir(world.cache_dir))
+        names = [n for n in self.placed(world) if n in have]
+        if not names:
+            return None
+        name = self.rng.choice(names)
+        out = [self._drain(), {'op': 'ext_rm', 'name': name}]
+        event = [op for op in self._unrelated_event(world)
+                 if op.get('name') != name]
+        out.extend(event or self.g_place_new(world))
+        out.append(self._drain())
+        return out
+
+    def g_unplace_uncached(self, world):
+        """An instance that never got a cache entry (no manifest) leaves."""
+        if not world.agent_alive or ROOT not in world.zk.nodes:
+            return None
+        rng = self.rng
+        have = set(os.listdir(world.cache_dir))
+        names = [n for n in self.placed(world) if n not in have and
+                 z.path.scheduled(n) not in world.zk.nodes]
+        out = []
+        if names:
+            name = rng.choice(names)
+        else:
+            name = self.new_name()
+            out.append({'op': 'place_put', 'name': name,
+                        'data': gen_placement_data(rng, world.clock.peek())})
+        out.extend([self._drain(), {'op': 'place_del', 'name': name},
+                    self._drain()])
+        return out
+
     def g_sched_del(self, world):
         sched = world.zk.children(z.SCHEDULED) or []
         if not sched:
@@ -1109,7 +1244,7 @@ OP_WEIGHTS = [
     ('place_new', 14), ('sched_put', 5), ('place_put', 9), ('place_del', 9),
     ('replace', 4), ('sched_del', 4), ('presence', 3), ('advance', 3),
     ('root_put', 3), ('deliver', 30), ('heartbeat', 5), ('kill', 5),
-    ('expire', 1),
+    ('expire', 1), ('late_manifest', 4), ('ext_rm', 3), ('unplace_uncached', 2),
 ]
 
 
@@ -1224,6 +1359,10 @@ class CacheSim(enginemod.Engine):
             're-created, moved to another host in any order; presence up / '
             'down; watch events delivered late and in batches; changes '
             'landing between two ZooKeeper reads of one synchronisation; '
+            'targeted multi-step histories on one running agent: manifest '
+            'appears after a synchronisation that missed it + a later '
+            'placement event, cache entry removed by another process + a '
+            'later event, never-cached instance unplaced; '
             'agent killed, session expired, restarted) executed fault-free '
             'with all oracles on; then for the sampled agent step(s) that '
             'wrote at least one cache file, EVERY mutating file-system call '
@@ -1263,8 +1402,11 @@ class CacheSim(enginemod.Engine):
             'NoNodeError)',
             'the has-a-file clause is demanded for instances whose manifest '
             'and placement record existed when the last synchronisation '
-            'began: nothing notifies the agent of a manifest that appears '
-            'later',
+            'began (= the agent last read the children of /placement/<host>, '
+            'observed at the ZooKeeper seam): nothing notifies the agent of '
+            'a manifest that appears later; an entry removed by another '
+            'process (ext_rm op, what appcfgmgr does with an entry it cannot '
+            'configure) is exempt until the next synchronisation begins',
             'clause beyond the literal statement, own signature '
             'C12:outdated-file-not-refreshed: the initial synchronisation '
             'rewrites a file that is older than its placement record (the '
